@@ -44,11 +44,11 @@ def drop_tree(d):
 
 
 def apply_patch(tree, patch):
-	for args in (["apply"], ["apply", "--3way"], ["apply", "-C1"],
-			["apply", "--ignore-whitespace", "-C1"]):
+	for args in (["apply"], ["apply", "-C1"]):
 		p = sh(["git", "-C", tree] + args + [patch])
 		if p.returncode == 0:
 			return True, " ".join(args)
+		sh(["git", "-C", tree, "checkout", "--", "."])
 	return False, p.stderr[-500:]
 
 
